@@ -1,5 +1,6 @@
 import Driver.Common
 import SSV.Model.Parsers
+import SSV.Model.Repack
 /-
 C06 driver: one entry point call per line, answer `ok <canonical value>` | `err <class>` | `panic`.
 Bytes are hex (`-` = empty). See harness/cmd/corr_c06 for the line formats.
@@ -13,6 +14,7 @@ def showR {α : Type} (f : α → String) : R α → String
   | .err e => "err " ++ e.name
   | .panic => "panic"
 
+def showII (x : Int × Int) : String := s!"{x.1} {x.2}"
 def showAN (x : Addr × Nat) : String := s!"{x.1.render} {x.2}"
 def showASL (x : Addr × Nat × Int) : String := s!"{x.1.render} {x.2.1} {x.2.2}"
 
@@ -183,6 +185,21 @@ def step (_ : Unit) (line : String) : Unit × String :=
           | .ok a => "ok " ++ a.render
           | .err _ => "err host"
           | .panic => "panic")
+    | ["repack", "ss2022c", mps, hdr, target, sp, draw, bl, ps, pl] => do
+        pure (showR showII (ss2022ClientPack Gen.C06.clientPackerGuardsIntN (← int? mps) (← hdr.toNat?) (← addr? target) (← bool? sp) (← draw.toNat?)
+          (← bl.toNat?) (← ps.toNat?) (← pl.toNat?)))
+    | ["repack", "ss2022s", mpl, src4, sp, draw, bl, ps, pl] => do
+        pure (showR showII (ss2022ServerPack Gen.C06.serverPackerGuardsIntN (← int? mpl) (← bool? src4) (← bool? sp) (← draw.toNat?)
+          (← bl.toNat?) (← ps.toNat?) (← pl.toNat?)))
+    | ["repack", "prefixc", hdr, target, mps, bl, ps, pl] => do
+        pure (showR showII (prefixClientPack (← hdr.toNat?) (← addr? target) (← int? mps) (← bl.toNat?) (← ps.toNat?) (← pl.toNat?)))
+    | ["repack", "prefixs", hdr, src4, mpl, bl, ps, pl] => do
+        pure (showR showII (prefixServerPack (← hdr.toNat?) (← bool? src4) (← int? mpl) (← bl.toNat?) (← ps.toNat?) (← pl.toNat?)))
+    | ["repack", "directc", mtu, target, res, ps, pl] => do
+        let r : Option Bool ← (if res == "-" then some none else if res == "4" then some (some true) else if res == "6" then some (some false) else none)
+        pure (showR showII (directClientPack (← int? mtu) (← addr? target) (fun _ => r) (← ps.toNat?) (← pl.toNat?)))
+    | ["dialsplit", target, plen, draw] => do
+        pure (showR (fun (x : Int × Int × Int) => s!"{x.1} {x.2.1} {x.2.2}") (dialStreamSplit (← addr? target) (← plen.toNat?) (← draw.toNat?)))
     | ["directpack", target, targetOnly, srcIsTarget, plen, maxLen] => do
         pure (showR (fun (_ : Unit) => "packed") (directServerPack (← addr? target) (← bool? targetOnly) (← bool? srcIsTarget) (← plen.toNat?) (← maxLen.toNat?)))
     | ["directcfg", target, targetOnly] => do
